@@ -124,7 +124,11 @@ func vBuildProject(n int) ([]vType, *JSchema) {
 	for i := range ts {
 		texts[i] = vTypeText(ts[i])
 	}
-	return ts, vLinkProject(texts, zzverif.Bool("linked"))
+	linked := false
+	if zzverif.Bound("linkedToo", 0, 1) == 1 {
+		linked = zzverif.Bool("linked")
+	}
+	return ts, vLinkProject(texts, linked)
 }
 
 // VerifC06_Recursion: all reference graphs over N object types with 1-2
@@ -244,18 +248,25 @@ func VerifC06_ChoiceShapes() {
 }
 
 // vLinkProject builds the root (= type @a under its own name) with every type
-// registered. With linked, every type's own schema also gets every type
-// registered (as a document processor that resolves all types everywhere does).
+// registered. With linked, ONE schema object per type is created and every
+// type is registered in every schema (as a document processor does), so that
+// names met inside a type resolve in that type's own table as well.
 func vLinkProject(texts []string, linked bool) *JSchema {
-	root := New(vTypeName(0), texts[0])
-	for i := range texts {
-		t := New(vTypeName(i), texts[i])
-		if linked {
-			for j := range texts {
-				_ = t.AddType(vTypeName(j), New(vTypeName(j), texts[j]))
-			}
+	if !linked {
+		root := New(vTypeName(0), texts[0])
+		for i := range texts {
+			_ = root.AddType(vTypeName(i), New(vTypeName(i), texts[i]))
 		}
-		_ = root.AddType(vTypeName(i), t)
+		return root
 	}
-	return root
+	ss := make([]*JSchema, len(texts))
+	for i := range texts {
+		ss[i] = New(vTypeName(i), texts[i])
+	}
+	for _, s := range ss {
+		for j := range ss {
+			_ = s.AddType(vTypeName(j), ss[j])
+		}
+	}
+	return ss[0]
 }
